@@ -153,7 +153,7 @@ func runC09(cs *vrt.Case) {
 	if cs.Idx%10 == 9 && len(files) > 0 {
 		f := files[(cs.Idx/10)%len(files)]
 		b, _ := os.ReadFile(f)
-		src, what = string(b), "testsuite "+strings.TrimPrefix(f, "/repo/")
+		src, what = string(b), "testsuite "+strings.TrimPrefix(f, vrt.Repo+"/")
 		if strings.Contains(src, " / ") || strings.Contains(src, " % ") {
 			// shipped division programs do not guard b == 0, and x/0 has
 			// no defined meaning (the Yao divider returns all ones, the
